@@ -102,11 +102,11 @@ func (c *Ctx) resolverModel(rule string) *resolverModel {
 			continue
 		}
 		fills := false
-		core.EachInstr(callee, func(j ssa.Instruction) {
-			if mu, ok := j.(*ssa.MapUpdate); ok && c.isMapTo(mu.Map.Type(), "Resolved") {
+		for _, fj := range c.familyInstrs(callee) {
+			if mu, ok := fj.I.(*ssa.MapUpdate); ok && c.isMapTo(mu.Map.Type(), "Resolved") {
 				fills = true
 			}
-		})
+		}
 		if fills {
 			m.docFn = callee
 		}
@@ -161,16 +161,16 @@ func ruleC03Cache(c *Ctx) {
 			urlParam = p
 		}
 	}
-	var byRetrieval, byCanonical *ssa.MapUpdate
-	core.EachInstr(m.docFn, func(i ssa.Instruction) {
-		mu, ok := i.(*ssa.MapUpdate)
+	var byRetrieval, byCanonical ssa.Instruction // the store, or the call in the document resolver that leads to it
+	for _, fi := range c.familyInstrs(m.docFn) {
+		mu, ok := fi.I.(*ssa.MapUpdate)
 		if !ok || !c.isMapTo(mu.Map.Type(), "Resolved") {
-			return
+			continue
 		}
 		// key = X.String()
 		kc, ok := mu.Key.(*ssa.Call)
 		if !ok || core.CalleeKey(&kc.Call) != "net/url.URL.String" {
-			return
+			continue
 		}
 		// (the URIs may be gone through one after the other: for _, u := range [...]*url.URL{a, b} { cache[u.String()] = rs })
 		recvs := []ssa.Value{kc.Call.Args[0]}
@@ -178,17 +178,17 @@ func ruleC03Cache(c *Ctx) {
 			recvs = elems
 		}
 		for _, recv := range recvs {
-			if recv == urlParam {
-				byRetrieval = mu
+			if upValue(recv, fi.Path) == ssa.Value(urlParam) {
+				byRetrieval = fi.Top()
 				continue
 			}
 			_, steps := c.accessPath(recv)
 			if len(steps) > 0 && steps[len(steps)-1].Field == "resolvedInfo.uri" {
-				byCanonical = mu
+				byCanonical = fi.Top()
 			}
 		}
-	})
-	for name, mu := range map[string]*ssa.MapUpdate{"retrieval-uri": byRetrieval, "canonical-uri": byCanonical} {
+	}
+	for name, mu := range map[string]ssa.Instruction{"retrieval-uri": byRetrieval, "canonical-uri": byCanonical} {
 		if mu == nil {
 			c.R.Bad(rule, "cache-key:"+name, c.P.Pos(m.docFn.Pos()), "the document resolver does not enter the new Resolved in the loader cache under its "+name+": a second reference through that spelling loads the document again, and a reference cycle through it recurses without bound")
 			continue
